@@ -302,10 +302,97 @@ def rule_r3(chk):
            "(targets written outside the cropped window are lost; a narrower window leaves targets unread)", m.loc(sc))
 
 
+def rule_r4(chk):
+    chk.rule("C07-R4", "first-order conditioning works in log space (frame_ds.logarithmize() precedes reading the frame data): every array "
+             "that supplies exogenized targets to it is log-transformed on the log-variable rows before the targets are read; all "
+             "places that flatten the incidence of endogenized anticipated shocks (columns of R, prior std, write-back of the "
+             "estimates) enumerate it in the same order", floor=4)
+    m = chk.repo.mod(FRD)
+    sc = m.func("_simulate_conditional")
+    chk.saw(m, "_simulate_conditional")
+    body = strip_docstring(sc.body)
+    logs = [i for i, st in enumerate(body) if isinstance(st, ast.Expr) and isinstance(st.value, ast.Call) and dotted(st.value.func) == "frame_ds.logarithmize"]
+    reads = [i for i, st in enumerate(body) if isinstance(st, ast.Assign) and "frame_ds.get_data_variant" in unparse(st.value)]
+    in_log_space = bool(logs) and bool(reads) and logs[0] < reads[0]
+    chk.ob("C07-R4", "fords.simulators._simulate_conditional[frame data in logs]", in_log_space if (logs or reads) else None,
+           "frame_ds.logarithmize() precedes get_data_variant(): the state and the targets live in log space for log-variables", m.loc(sc))
+    # the array the helpers read targets from
+    helpers = [f for q, f in m.functions() if q.startswith("_insert_exogenized_")]
+    srcs = set()
+    for h in helpers:
+        chk.saw(m, h.name)
+        for n in ast.walk(h):
+            if isinstance(n, ast.Assign) and isinstance(n.value, ast.Subscript) and isinstance(n.value.value, ast.Subscript) \
+                    and "curr_xi_qids" in unparse(n.value.value.slice):
+                srcs.add(unparse(n.value.value.value))
+    if srcs != {"input_data_array"}:
+        chk.undecided("C07-R4", "fords.simulators._insert_exogenized_*[target source]", f"targets are read from {sorted(srcs)}", m.rel)
+    elif in_log_space:
+        # a log transform of the log-variable rows of input_data_array, dominating the statement that hands it to the helpers
+        packed = [i for i, st in enumerate(body) if any(isinstance(n, ast.Name) and n.id == "input_data_array" for n in ast.walk(st))
+                  and isinstance(st, ast.If) and "plan_registers" in unparse(st.test)]
+        transformed = None
+        for i, st in enumerate(body[:packed[0]] if packed else body):
+            for n in ast.walk(st):
+                if isinstance(n, ast.Assign) and isinstance(n.targets[0], ast.Subscript) and unparse(n.targets[0].value) == "input_data_array" \
+                        and isinstance(n.value, ast.Call) and dotted(n.value.func) in ("_np.log", "np.log") \
+                        and squash(n.value.args[0]) == squash(n.targets[0]):
+                    rows = n.targets[0].slice.elts[0] if isinstance(n.targets[0].slice, ast.Tuple) else n.targets[0].slice
+                    rv = assign_value(sc, unparse(rows)) if isinstance(rows, ast.Name) else rows
+                    transformed = "logly_indexes" in unparse(rv) if rv is not None else None
+        in_helpers = any("_np.log(" in unparse(h) for h in helpers)
+        other_route = any(isinstance(n, ast.Call) and "log" in (dotted(n.func) or "").lower() and dotted(n.func) != "frame_ds.logarithmize"
+                          and any("input_data_array" in unparse(a) for a in list(n.args) + [k.value for k in n.keywords])
+                          for st in body for n in ast.walk(st))
+        ok = True if (transformed or in_helpers) else (None if other_route else False)
+        chk.ob("C07-R4", "fords.simulators._simulate_conditional[targets in logs]", ok,
+               "input_data_array[logly rows] is log-transformed before the exogenized targets are read from it" if ok else
+               "the exogenized targets are read from input_data_array, which is never log-transformed, while the state is in logs: an exogenized "
+               "log-variable is driven to exp(target)", m.loc(sc))
+        # the caller's array must not be modified in place (it is shared by all frames)
+        copies = [st for st in body if isinstance(st, ast.Assign) and unparse(st.targets[0]) == "input_data_array" and isinstance(st.value, ast.Call)]
+        if transformed:
+            copied = any("copy" in unparse(st.value) for st in ast.walk(sc) if isinstance(st, ast.Assign) and unparse(st.targets[0]) == "input_data_array")
+            chk.ob("C07-R4", "fords.simulators._simulate_conditional[shared input copied]", copied,
+                   "the log transform is applied to a copy: the caller passes the same array to every frame", m.loc(sc))
+    # ---- order of flattening incidence_v
+    sites = {}
+    for q, f in m.functions():
+        for n in ast.walk(f):
+            if isinstance(n, ast.Subscript):
+                sl = n.slice.elts[0] if isinstance(n.slice, ast.Tuple) and n.slice.elts else n.slice
+                t = squash(sl)
+                if t == "incidence_v":
+                    sites[f"{q}:{squash(n.value)}[incidence_v]"] = ("shock by shock (row-major)", n)
+                elif t == "incidence_v.T":
+                    base_t = isinstance(n.value, ast.Attribute) and n.value.attr == "T"
+                    sites[f"{q}:{squash(n.value)}[incidence_v.T]"] = ("period by period" if base_t else "?", n)
+            if isinstance(n, (ast.GeneratorExp, ast.ListComp, ast.For)):
+                it = n.generators[0].iter if not isinstance(n, ast.For) else n.iter
+                if isinstance(it, ast.Call) and dotted(it.func) == "zip":
+                    for a in it.args:
+                        if squash(a) == "incidence_v.T":
+                            sites[f"{q}:zip(...,incidence_v.T)"] = ("period by period", n)
+                        elif squash(a) == "incidence_v":
+                            sites[f"{q}:zip(...,incidence_v)"] = ("shock by shock (row-major)", n)
+    orders = {v[0] for v in sites.values()}
+    if len(sites) < 3:
+        chk.undecided("C07-R4", "fords.simulators[order of endogenized anticipated shocks]", f"only {len(sites)} flattening site(s) recognised: {sorted(sites)}", m.rel)
+    else:
+        major = max(orders, key=lambda o: sum(1 for v in sites.values() if v[0] == o))
+        gen = [v[0] for k, v in sites.items() if k.startswith("_generate_R")]
+        ref = gen[0] if gen else major
+        for k, (o, n) in sorted(sites.items()):
+            chk.saw(m, k.split(":")[0])
+            chk.ob("C07-R4", f"fords.simulators.{k}[order]", (o == ref) if "?" not in (o, ref) else None,
+                   f"enumerates the endogenized anticipated shocks {o}; the columns of R (_generate_R) are {ref}", m.loc(n))
+
+
 def run(chk):
     rule_r1(chk)
     rule_r2(chk)
     rule_r3(chk)
+    rule_r4(chk)
     chk.assumptions = [
         "exact hitting of targets by the smoother-based first-order method and recovery of shocks are numerical: NOT decided",
         "kalmans.predict/smooth are correct (C03)",
